@@ -11,7 +11,7 @@ import re
 from vf import lex
 from vf.extract import Source, Unit
 from vf.lex import Rule, ExtractionBreak
-from vf.pipeline import Group, Replay, ALL_LIB
+from vf.pipeline import Group, Replay, ALL_LIB, DEFAULT_CHECKS
 from props import rw_common
 
 ID = 'C05'
@@ -306,7 +306,9 @@ def json_unit(ctx, src, loops):
     u.function(src, ST, r'uint8_t value_for_hex_char\(char x\)', ret_zero='0')
     u = new_unit('skip')
     u.function(src, JS, SKIP_SIG, new_header='void skip_whitespace_and_comments(StringReader* r, bool disable_extensions)', ret_zero='',
-               rules=[Rule(r'(\bwhile \(!r\.eof\(\)\) \{)', r'\1 C05_SKIP_STEP;', count=1, regex=True)] + COMMON_TAIL,
+               rules=[Rule(r'(\bwhile \(!r\.eof\(\)\) \{)', r'\1 C05_SKIP_STEP;', count=1, regex=True),
+                      Rule(r'\breturn;', '{ C05_SKIP_EXIT; return; }', count='+', regex=True),
+                      Rule(r'\}\s*\Z', ' C05_SKIP_EXIT; }', count=1, regex=True)] + COMMON_TAIL,
                nloops=1, loops={1: loops['skip']}, body_prefix=' C05_SKIP_ENTRY; ')
     u = new_unit('dict')
     CHILD = '(JSON_parse(r, disable_extensions, &%s), %s); if (verif_exc) return;'      # (call, ghost step) ; propagation
@@ -317,7 +319,7 @@ def json_unit(ctx, src, loops):
             rules=[ENTRY('C05_DICT_ENTRY'), Rule('ret = JSON::dict();', 'jv_set_dict(ret);', count=1),
                    Rule(r'char separator = r\.get_s8\(\);', 'C05_DICT_OPEN; char separator = r.get_s8();', count=1, regex=True),
                    Rule(r'(?<!char )separator = r\.get_s8\(\);', 'C05_DICT_PEEK_C; separator = r.get_s8();', count=1, regex=True),
-                   Rule(r'(\bif \([^{;]*r\.get_s8\(false\) == \'\}\'[^{;]*\) \{)', r'C05_DICT_PEEK_A; \1', count=1, regex=True),
+                   Rule(r'(\bif \([^;]*?r\.get_s8\(false\) == \'\}\'[^;]*?\) \{)', r'C05_DICT_PEEK_A; \1', count=1, regex=True),
                    Rule(r'JSON key = JSON::parse\(r, disable_extensions\);',
                         'JVal key; ' + CHILD % ('key', 'C05_DICT_KEY_DONE'), count=1, regex=True),
                    Rule(r"(\bif \(r\.get_s8\(\) != ':'\) \{)", r'C05_DICT_PEEK_D; \1', count=1, regex=True),
@@ -342,7 +344,7 @@ def json_unit(ctx, src, loops):
             rules=[ENTRY('C05_LIST_ENTRY'), Rule('ret = JSON::list();', 'jv_set_list(ret);', count=1),
                    Rule(r'char separator = r\.get_s8\(\);', 'C05_LIST_OPEN; char separator = r.get_s8();', count=1, regex=True),
                    Rule(r'(?<!char )separator = r\.get_s8\(\);', 'C05_LIST_PEEK_C; separator = r.get_s8();', count=1, regex=True),
-                   Rule(r'(\bif \([^{;]*r\.get_s8\(false\) == \'\]\'[^{;]*\) \{)', r'C05_LIST_PEEK_A; \1', count=1, regex=True),
+                   Rule(r'(\bif \([^;]*?r\.get_s8\(false\) == \'\]\'[^;]*?\) \{)', r'C05_LIST_PEEK_A; \1', count=1, regex=True),
                    Rule(r'ret\.emplace_back\(JSON::parse\(r, disable_extensions\)\);',
                         '{ JVal verif_v; C05_LIST_PEEK_V; ' + CHILD % ('verif_v', 'C05_LIST_CHILD_DONE') + ' jv_list_append(ret); }', count=1, regex=True),
                    SKIP_RULE] + COMMON_TAIL,
@@ -374,10 +376,10 @@ def json_unit(ctx, src, loops):
     u = new_unit('dispatch')
     u.function(src, JS, PARSE_SIG, ret_zero='', body_prefix=' C05_PARSE_ENTRY; ',
                new_header='void JSON_parse(StringReader* r, bool disable_extensions, JVal* ret)',
-               rules=[replace_block('dict', 'JSON_parse_dict(r, disable_extensions, ret);'),
-                      replace_block('list', 'JSON_parse_list(r, disable_extensions, ret);'),
-                      replace_block('number', 'JSON_parse_number(r, disable_extensions, root_type_ch, ret);'),
-                      replace_block('string', 'JSON_parse_string(r, ret);'),
+               rules=[replace_block('dict', '(JSON_parse_dict(r, disable_extensions, ret), C05_PARSE_SYNC);'),
+                      replace_block('list', '(JSON_parse_list(r, disable_extensions, ret), C05_PARSE_SYNC);'),
+                      replace_block('number', '(JSON_parse_number(r, disable_extensions, root_type_ch, ret), C05_PARSE_SYNC);'),
+                      replace_block('string', '(JSON_parse_string(r, ret), C05_PARSE_SYNC);'),
                       Rule(r'\bJSON ret;', 'jv_init(ret);', count=1, regex=True),
                       Rule(r'\bchar root_type_ch = r\.get_s8\(false\);', 'char root_type_ch = r.get_s8(false); C05_PARSE_ROOT;', count=1, regex=True),
                       Rule(r'\bret = 0;', 'jv_set_null(ret);', count=1, regex=True),
@@ -391,7 +393,7 @@ def json_unit(ctx, src, loops):
     u.function(src, JS, CSTR_SIG, ret_zero='',
                new_header='void JSON_parse_cstr(const char* s, size_t size, bool disable_extensions, JVal* ret)',
                rules=[Rule(r'\bStringReader r\(s, size\);', 'StringReader verif_r; StringReader* r = &verif_r; StringReader_ctor(r, s, size, 0); C05_CSTR_ENTRY;', count=1, regex=True),
-                      Rule(r'\bauto ret = JSON::parse\(r, disable_extensions\);', 'JSON_parse(r, disable_extensions, ret); C05_CSTR_PARSED;', count=1, regex=True),
+                      Rule(r'\bauto ret = JSON::parse\(r, disable_extensions\);', '(JSON_parse(r, disable_extensions, ret), C05_CSTR_PARSED);', count=1, regex=True),
                       Rule(r'(\bif \(!r\.eof\(\)\) \{)', r'C05_CSTR_SKIPPED; \1', count=1, regex=True),
                       Rule(r'\breturn ret;', 'return;', count=1, regex=True),
                       SKIP_RULE] + COMMON_TAIL)
@@ -403,6 +405,14 @@ def json_unit(ctx, src, loops):
 
 
 RDG_ = 'g_len, g_off, g_mk'          # ghosts written by every reader call (macro RD)
+NUMG = 'g_j.nq, g_j.nc, g_j.nc2, g_j.nacc, g_j.novf, g_j.nneg, g_j.nalpha'       # ghosts written by C05_NUM_STEP
+
+
+def num_common(locals_):
+    return ('\n__CPROVER_assigns(verif_exc, r->offset, %s, %s, %s)\n' % (locals_, RDG_, NUMG) +
+            '__CPROVER_loop_invariant(verif_exc == 0 && r->offset <= r->length && r->offset >= g_j.nstart && g_j.nalpha && (!g_j.nneg) == (!negative))')
+
+
 LOOPS = {
     'skip': """
 __CPROVER_assigns(verif_exc, r->offset, reading_comment, %s, g_w.cm, g_w.k_ok, g_w.sc)
@@ -414,7 +424,33 @@ __CPROVER_decreases(r->length - r->offset)
 """ % RDG_,
     'list': "C05_CONTAINER_INV('[', ']', JV_LIST)",
     'dict': "C05_CONTAINER_INV('{', '}', JV_DICT)",
-    'string': '', 'num1': '', 'num2': '', 'num3': '', 'num4': '', 'num5': '', 'num6': '',
+    'string': '',
+    # number branch: 1 hex digits, 2 integer digits, 3 fraction digits, 4 exponent digits, 5/6 scaling by the exponent
+    'num1': num_common('int_data') + """
+__CPROVER_loop_invariant(g_j.nhex && !disable_extensions && r->offset > g_j.nstart && (g_j.nq == NQ_HEXP || g_j.nq == NQ_HEX || g_j.nq == NQ_DEAD))
+__CPROVER_loop_invariant((g_j.nq != NQ_DEAD && !g_j.novf) ==> ((uint64_t)int_data == g_j.nacc && g_j.nacc <= 0x7FFFFFFFFFFFFFFFull))
+__CPROVER_loop_invariant(g_j.nq == NQ_HEXP ==> C05_ISHEX(C05_PEEK(r)))
+__CPROVER_decreases(r->length - r->offset)
+""",
+    'num2': num_common('int_data') + """
+__CPROVER_loop_invariant(!g_j.nhex && (g_j.nq == NQ_START || g_j.nq == NQ_MINUS || g_j.nq == NQ_ZERO || g_j.nq == NQ_INT || g_j.nq == NQ_DEAD))
+__CPROVER_loop_invariant((g_j.nq != NQ_DEAD && !g_j.novf) ==> ((uint64_t)int_data == g_j.nacc && g_j.nacc <= 0x7FFFFFFFFFFFFFFFull))
+__CPROVER_loop_invariant(g_j.nq == NQ_ZERO ==> r->offset == g_j.nstart + (negative ? 2 : 1))
+__CPROVER_loop_invariant((g_j.nq == NQ_START || g_j.nq == NQ_MINUS) ==> r->offset == g_j.nstart + (negative ? 1 : 0))
+__CPROVER_loop_invariant((g_j.nq == NQ_INT || g_j.nq == NQ_DEAD) ==> r->offset > g_j.nstart + (negative ? 1 : 0))
+__CPROVER_decreases(r->length - r->offset)
+""",
+    'num3': num_common('float_data, this_place') + """
+__CPROVER_loop_invariant(!g_j.nhex && r->offset > g_j.nstart && (g_j.nq == NQ_DOT || g_j.nq == NQ_FRAC || g_j.nq == NQ_DEAD))
+__CPROVER_decreases(r->length - r->offset)
+""",
+    'num4': num_common('e') + """
+__CPROVER_loop_invariant(!g_j.nhex && r->offset > g_j.nstart && (g_j.nq == NQ_E || g_j.nq == NQ_ESIGN || g_j.nq == NQ_EXP || g_j.nq == NQ_DEAD))
+__CPROVER_loop_invariant(g_j.nq == NQ_E ==> (C05_PEEK(r) != '+' && C05_PEEK(r) != '-'))
+__CPROVER_decreases(r->length - r->offset)
+""",
+    'num5': '__CPROVER_assigns(e, int_data, float_data)\n__CPROVER_loop_invariant(1 == 1)\n__CPROVER_decreases(e)',
+    'num6': '__CPROVER_assigns(e, int_data, float_data)\n__CPROVER_loop_invariant(1 == 1)\n__CPROVER_decreases(e)',
 }
 
 READER_FNS = ['StringReader_get_s8', 'StringReader_pget_s8', 'StringReader_where', 'StringReader_size', 'StringReader_eof',
@@ -441,8 +477,10 @@ def plan(ctx):
 
     def G(name, unit, entry, enforce, function, **kw):
         """every function the unit calls that has a contract of its own is replaced by that contract"""
-        kw.setdefault('object_bits', 12)
+        kw.setdefault('object_bits', 9)      # dfcc's object-id-indexed sets cost 2^object_bits each: as small as the object count allows
         kw.setdefault('timeout', 300)
+        if enforce not in ('skip_whitespace_and_comments', 'JSON_parse'):
+            kw.setdefault('defines', ['C05_LIGHT=1'])       # callers use the subset of the clauses they need
         text = lex.mask(U[unit].text()).replace('C05_SKIP(', 'skip_whitespace_and_comments(')
         replace = [c for c in CALLEES if c != enforce and re.search(r'\b%s\s*\(' % c, text.replace('void %s(' % c, ''))]
         if 'replace' in kw:
@@ -458,6 +496,13 @@ def plan(ctx):
       loops=True, kind='recursive', replay=RP('list'), first='cadical')
     G('JSON.parse.dict', 'dict', 'h_dict', 'JSON_parse_dict', 'JSON::parse(StringReader&, bool): dictionary branch',
       loops=True, kind='recursive', replay=RP('dict'), first='cadical')
+    NOOVF = [c for c in DEFAULT_CHECKS if c not in ('--signed-overflow-check', '--undefined-shift-check')] + ['--no-signed-overflow-check', '--no-undefined-shift-check']
+    G('JSON.parse.number', 'number', 'h_number', 'JSON_parse_number', 'JSON::parse(StringReader&, bool): number branch',
+      loops=True, kind='loop-contract', replay=RP('text'), fallback_unwind=10, defines=[], checks=NOOVF, first='cadical', object_bits=10,
+      clause_note='all numerals; signed overflow of the int64 / int accumulators wraps (two\'s complement), flagged by the ghost g_j.novf')
+    G('JSON.parse.number.no-overflow', 'number', 'h_number', 'JSON_parse_number', 'JSON::parse(StringReader&, bool): number branch, no UB on in-range numerals',
+      loops=True, kind='loop-contract', replay=RP('text'), fallback_unwind=10, defines=['C05_NUM_RESTRICT=1'], first='cadical', object_bits=10,
+      clause_note='numerals with at most 18 integer digits (15 hexadecimal digits): --signed-overflow-check on')
     G('JSON.parse_cstr', 'entry', 'h_cstr', 'JSON_parse_cstr', 'JSON::parse(const char*, size_t, bool)', replay=RP('text'),
       replace=['StringReader_eof', 'JSON_parse', 'skip_whitespace_and_comments'])
     G('JSON.parse_str', 'entry', 'h_str', 'JSON_parse_str', 'JSON::parse(const std::string&, bool)', replace=['JSON_parse_cstr'], replay=RP('text'))
